@@ -16,18 +16,19 @@ MONS = ["C09"]
 def plans(ctx):
     L = 20
     if ctx.thorough:
-        menu = [("k2a", [1, 2, 3, L], 2), ("k2b", [1, 2, 3, L], 2), ("k2m1", [1, 2, 3, L], 2),
-                ("k2vec", [1, 2, L], 1), ("k2mat", [1, L], 1), ("k2w3", [2, L], 1),
-                ("k3a", [1, 2, L], 1), ("k3b", [L], 1), ("k2seed", [1, 2, L], 2), ("k2big", [1, 2, L], 1)]
+        # (driver, limits, donor-deviation bound, subset cap)
+        menu = [("k2a", [1, 2, 3, L], 1, 64), ("k2a", [L], 2, 10), ("k2b", [1, 2, L], 1, 10), ("k2m1", [1, 2, 3, L], 1, 64),
+                ("k2m1", [L], 2, 10), ("k2vec", [1, 2, L], 1, 64), ("k2mat", [1, L], 1, 10), ("k2w3", [2, L], 1, 10),
+                ("k3a", [1, 2, L], 1, 10), ("k3b", [L], 0, 10), ("k2seed", [1, 2, L], 1, 64), ("k2big", [1, 2, L], 1, 10),
+                ("k2eps2", [L], 1, 10), ("k2e5", [L], 1, 10)]
     else:
-        menu = [("k2a", [1, 2, 3, L], 1), ("k2m1", [1, 2, L], 1), ("k2vec", [2, L], 1),
-                ("k2seed", [1, L], 1)]
+        menu = [("k2a", [1, 2, 3, L], 1, 10), ("k2m1", [1, 2, L], 1, 10), ("k2vec", [2, L], 1, 10),
+                ("k2seed", [1, L], 1, 10)]
     out = []
-    for (name, limits, bound) in menu:
+    for (name, limits, bound, cap) in menu:
         d = ml.get_driver(name, ctx.seed)
         out.append(dict(driver=name, seed=ctx.seed, inits=ml.all_labellings(d.Tp, d.K), limits=limits,
-                        bound=bound, entry="fit", monitors=MONS, conform=True,
-                        subset_cap=64 if ctx.thorough else 10))
+                        bound=bound, entry="fit", monitors=MONS, conform=True, subset_cap=cap))
     return out
 
 
@@ -37,12 +38,12 @@ def run(ctx):
     ps = plans(ctx)
     ml.explore(ctx, ps)
     ctx.cov["drivers"] = [ml.get_driver(p["driver"], ctx.seed).describe() | {"limits": p["limits"],
-                          "donor_deviation_bound": p["bound"], "initial_labellings": len(p["inits"])} for p in ps]
+                          "donor_deviation_bound": p["bound"], "subset_cap": p["subset_cap"], "initial_labellings": len(p["inits"])} for p in ps]
     ctx.cov["exhaustive"] = True
     ctx.cov["rule"] = (
         "evaluations = complete real runs of fit_stacked_data (every initial labelling x limit x donor "
         "script with at most `donor_deviation_bound` non-default draws; all C(n,m) subsets per draw when "
-        "<= 64 (quick: <= 10), else first/last/alternating m); states = distinct (labelling, donor-ranking spreads) reached; transitions = applications "
+        "<= subset_cap, else first/last/alternating m); states = distinct (labelling, donor-ranking spreads) reached; transitions = applications "
         "of the fresh-state transition function; distinct_nontrivial = runs that completed with >= 2 rounds")
     ctx.assumptions += [
         "the initial labelling, the donor draw and the pool are the only environment answers (checked: "
